@@ -27,6 +27,8 @@ func runC01(c *Ctx, r *Report) {
 	r.Doc("R-C01.3", "merged heads depend on destination heads, source heads, new items' predecessor links and the destination's predecessor index")
 	r.Doc("R-C01.4", "the apply phase indexes and inserts every new item unconditionally")
 	r.Doc("R-C01.5", "ordered-map copies and merges do not alias or mutate their sources")
+	r.Doc("R-C01.7", "a reopened replica orders with the comparator it was configured with (replicas with the same entries and different comparators do not converge)")
+	optionForwarding(c, r, "R-C01.7", append(constructorLoaderSpecs(), constructorLogSpecs()...), "SortFn")
 	join := p.FuncI("", "IPFSLog", "Join")
 
 	// ---- R-C01.1
@@ -152,8 +154,17 @@ func runC01(c *Ctx, r *Report) {
 				cond = p.Pos(x.Pos())
 			}
 		}
+		if cond == "" {
+			depth := 1
+			if v == nextF {
+				depth = 2
+			}
+			if ok, why := loopComplete(p, join, call, depth, false, false); !ok {
+				cond = why
+			}
+		}
 		r.Check(cond == "", "R-C01.4", r.Key("R-C01.4", join, "apply", v.Name()), call.Pos(),
-			v.Name()+".Set in the apply loop is unconditional for every new item", v.Name()+".Set in the apply loop is guarded by a condition at "+cond+": some new items (or some of their predecessor links) are not indexed, so later head computations depend on the order in which entries arrived")
+			v.Name()+".Set in the apply loop is unconditional for every new item", v.Name()+".Set in the apply loop does not run for every new item and link ("+cond+"): some new items (or some of their predecessor links) are not indexed, so later head computations depend on the order in which entries arrived")
 		return true
 	})
 	r.Floor("R-C01.4", "index updates in Join's apply phase", nApply, 2)
